@@ -11,6 +11,7 @@ import (
 	"github.com/talostrading/sonic"
 	"golang.org/x/sys/unix"
 
+	"verif/internal/rawpeer"
 	"verif/internal/sim"
 	"verif/internal/vf"
 )
@@ -200,21 +201,42 @@ func runC05(c *vf.Case) {
 		// Post from inside an I/O completion handler and from inside a timer callback
 		if o, err := w.NewObj(sim.KConnDialed, false); err == nil && !c.Failed() {
 			before := atomic.LoadInt64(&x.total)
-			w.NextOnDone = func(op *sim.Op) { x.post(ioc, 3, 0, 1, &nested) }
+			// a handler posted from top level is still queued when the read completion posts the next one of the same
+			// poster: they run in that order (the one posted from inside the completion callback is not run on the spot)
+			x.post(ioc, 3, 0, 0, &nested)
+			w.NextOnDone = func(op *sim.Op) { x.post(ioc, 3, 1, 1, &nested) }
 			w.StartStream(o, 0, false, 8, sim.BNone, nil, true)
 			w.PeerWrite(o, 4)
 			if tm, err := w.NewTimer(); err == nil {
 				_ = tm.T.ScheduleOnce(time.Millisecond, func() { x.post(ioc, 4, 0, 1, &nested) })
 			}
 			c.Bounded("post-from-io-or-timer-handler-deadlocks-the-loop", 30*time.Second, func() {
-				for it := 0; it < 20000 && atomic.LoadInt64(&x.total) < before+4; it++ {
+				for it := 0; it < 20000 && atomic.LoadInt64(&x.total) < before+5; it++ {
 					_ = ioc.RunOneFor(time.Millisecond)
 				}
 			})
-			if got := atomic.LoadInt64(&x.total) - before; got != 4 {
-				c.Failf("post-from-io-or-timer-handler-not-executed", "4 handlers were posted from a read completion and a timer callback (incl. nested), %d executed", got)
+			if got := atomic.LoadInt64(&x.total) - before; got != 5 {
+				c.Failf("post-from-io-or-timer-handler-not-executed", "5 handlers were posted from top level, a read completion and a timer callback (incl. nested), %d executed", got)
 			}
 			c.Count("posts_from_io_and_timer_handlers", 1)
+			// the same from a completion callback that runs INSIDE the start call (data already buffered): the handler
+			// it posts is queued behind the one posted before the call, not run on the spot
+			if !c.Failed() && !o.Closed {
+				w.PeerWrite(o, 4)
+				rawpeer.WaitReadable(o.Raw, 1000)
+				before2 := atomic.LoadInt64(&x.total)
+				x.post(ioc, 6, 0, 0, &nested)
+				w.NextOnDone = func(op *sim.Op) { x.post(ioc, 6, 1, 0, &nested) }
+				if op := w.StartStream(o, 0, false, 8, sim.BNone, nil, false); op != nil && op.Calls == 1 {
+					c.Count("posts_from_an_inline_completion_callback", 1)
+				}
+				for it := 0; it < 20000 && atomic.LoadInt64(&x.total) < before2+2; it++ {
+					_ = ioc.RunOneFor(time.Millisecond)
+				}
+				if got := atomic.LoadInt64(&x.total) - before2; got != 2 {
+					c.Failf("post-from-io-or-timer-handler-not-executed", "2 handlers were posted (top level, then an inline read completion), %d executed", got)
+				}
+			}
 		}
 	case 1: // wake probe: loop blocked in RunOne(), Post from another thread
 		c.Logf("wake probe: loop blocked in RunOne, one Post from another goroutine")
